@@ -571,6 +571,56 @@ fn bundle_refresh<S: ShortGroupSignatureScheme>(em: &mut Emitter, rng: &mut Rng,
     }
 }
 
+/// identifiers that a lenient reader might identify (case exchanged, white space around): two registry entries must be two
+/// accumulator elements — after one is revoked, nothing the issuer hands the other helps the revoked holder
+fn identifier_twins<S: ShortGroupSignatureScheme>(em: &mut Emitter, rng: &mut Rng, suite: &str) {
+    let n_claims = 3;
+    let schema = cred_schema(n_claims, &[]);
+    let tag = rng.below(1 << 20);
+    let base = format!("ACC-2024-{:06}-x", tag);
+    let variants: Vec<(&str, String)> = vec![
+        ("case-exchanged", base.chars().map(|c| if c.is_ascii_lowercase() { c.to_ascii_uppercase() } else { c.to_ascii_lowercase() }).collect()),
+        ("trailing-spaces", format!("{}   ", base)),
+        ("leading-space", format!(" {}", base)),
+        ("trailing-tab", format!("{}\t", base)),
+        ("trailing-newline", format!("{}\n", base)),
+    ];
+    for (vname, twin) in variants {
+        let (public, mut issuer) = Issuer::<S>::new(&schema);
+        let a = issuer.sign_credential(&claim_vector(rng, n_claims, &base, "A", 30));
+        let b = issuer.sign_credential(&claim_vector(rng, n_claims, &twin, "B", 31));
+        let (a, b) = match (a, b) {
+            (Ok(a), Ok(b)) => (a, b),
+            _ => {
+                em.count(&format!("identifier-twins:{}:issuance-refused", vname));
+                continue;
+            }
+        };
+        em.oracle_case(&format!("{} identifier-twins {}", suite, vname));
+        if issuer.revoke_credentials(&[RevocationClaim::from(base.as_str())]).is_err() {
+            continue;
+        }
+        let value = issuer.revocation_registry.value;
+        let nonce = rng.bytes(16);
+        match call(|| issuer.update_revocation_handle(RevocationClaim::from(twin.as_str()))) {
+            Out::Ok(w) => {
+                let (sch, pb) = present(&public, &b.credential, w, value, &nonce);
+                if !matches!(&pb, Out::Ok(p) if call(|| p.verify(&sch, &nonce)).is_ok()) {
+                    em.violation("c06:active-cannot-present:identifier-twin", format!("{}: the active holder of an identifier that differs from a revoked one only by {} cannot present after refreshing", suite, vname), json!({"suite": suite, "variant": vname}));
+                }
+                let (sch, pa) = present(&public, &a.credential, w, value, &nonce);
+                if matches!(&pa, Out::Ok(p) if call(|| p.verify(&sch, &nonce)).is_ok()) {
+                    em.violation("c06:revoked-presents:identifier-twin", format!("{}: a revoked holder presents with the refreshed handle of the identifier that differs from its own only by {}", suite, vname), json!({"suite": suite, "variant": vname}));
+                }
+            }
+            _ => em.violation("c06:active-refresh-failed", format!("{}: refresh failed for the active twin identifier ({})", suite, vname), json!({"suite": suite, "variant": vname})),
+        }
+        if call(|| issuer.update_revocation_handle(RevocationClaim::from(base.as_str()))).is_ok() {
+            em.violation("c06:revoked-refreshed", format!("{}: the issuer refreshed a revoked identifier", suite), json!({"suite": suite, "variant": vname}));
+        }
+    }
+}
+
 fn proof_deviations<S: ShortGroupSignatureScheme + 'static>(em: &mut Emitter, rng: &mut Rng, suite: &str) {
     let n_claims = 4;
     let schema = cred_schema(n_claims, &[]);
@@ -896,6 +946,10 @@ pub fn gen_c06(em: &mut Emitter, rng: &mut Rng) {
     }
     if em.mine(n + 3) {
         batch_orders::<Ps>(em, &mut rng.sub(1004), "ps");
+    }
+    if em.mine(n + 6) {
+        identifier_twins::<Bbs>(em, &mut rng.sub(1009), "bbs");
+        identifier_twins::<Ps>(em, &mut rng.sub(1010), "ps");
     }
     if em.mine(n + 5) {
         bundle_refresh::<Bbs>(em, &mut rng.sub(1007), "bbs");
